@@ -141,7 +141,8 @@ def build(job):
             stubs.FS[path] = [("row", list(r)) for r in table]
 
             def read():
-                return [list(r[1]) for r in stubs.FS[path] if r[0] == "row"]
+                # read the in-memory file back the way a reader with the same dialect would
+                return [list(r) for r in stubs._Reader(stubs._File(path), delimiter=sep or "\t")]
         else:
             if awkward([c for r in rows for c in r]):
                 return "<precondition-not-met: cells the csv dialect cannot carry unchanged>"
